@@ -82,6 +82,27 @@ ApprovalNeedsLiveSigners(s, a, r) ==
 RotationKeepsApprovals(s, a, r) ==
     (a.name = "RotateSigners" /\ r.ok) => r.post.gw.status = s.gw.status /\ r.post.its = s.its
 Frame(s, a, r) == ~r.ok => r.post = s /\ r.ev = <<>>
+(* Refinement: the composed system implements ITS.tla, whose approval table is abstract.  Under the mapping
+   "the service's approval table IS the gateway's status table", every system step is the corresponding
+   step of ITS.tla (execute |-> Execute, approve_messages |-> one ApproveDelivery per message, in order) or a
+   stuttering step (rotations, clock ticks, ownership of the gateway).  This is what entitles the ITS
+   instances (C04, C05, C11, C18) to model the gateway by the single abstract step `ApproveDelivery`. *)
+MapITS(s) == [s.its EXCEPT !.appr = [k \in Keys |-> s.gw.status[k]]]
+RECURSIVE ApproveAll(_, _)
+ApproveAll(ist, ms) ==
+    IF ms = <<>> THEN ist ELSE ApproveAll(I!ApproveDelivery(ist, [name |-> "ApproveDelivery", d |-> Head(ms)]).post, Tail(ms))
+StripExec(ev) == SelectSeq(ev, LAMBDA e : e.k \notin {"delivery_executed", "message_executed"})
+Refines(s, a, r) ==
+    LET m == MapITS(s)
+        m2 == MapITS(r.post) IN
+    CASE a.name = "Execute" ->
+            LET ar == I!Apply(m, a) IN
+            /\ ar.ok = r.ok /\ ar.post = m2 /\ StripExec(ar.ev) = StripExec(r.ev)
+            /\ (~r.ok => ar.fails = r.fails)
+      [] a.name = "ApproveMessages" -> m2 = IF r.ok THEN ApproveAll(m, a.msgs) ELSE m
+      [] a.name \in GatewayActions -> m2 = m
+      [] OTHER -> LET ar == I!Apply(m, a) IN ar.ok = r.ok /\ ar.post = m2 /\ ar.ev = r.ev /\ ar.fails = r.fails
+Sys_RefinesITS == Step(Refines)
 Sys_Gate == Step(Gate)
 Sys_Once == Step(Once)
 Sys_ApprovalNeedsLiveSigners == Step(ApprovalNeedsLiveSigners)
